@@ -533,6 +533,17 @@ def sa_twin(prob, name, limit):
     return out
 
 
+def hang_verdict_reached(ctx, hangs=None):
+    """True once many implementation calls of this run did not return AND a did-not-return violation has been
+    recorded: the verdict is established, and every further hanging call costs its CPU limit - the remaining
+    problems of the stream are skipped so that the run ends with its verdict instead of a timeout."""
+    n = _HANGS[0] if hangs is None else hangs
+    if n >= 30 and any(k == "did-not-return" for k, _, _ in ctx.concrete):
+        ctx.tag("stream-cut-short-after-hangs")
+        return True
+    return False
+
+
 def did_not_return(ctx, name, impl, case, prob=None):
     """A call that does not return.  Sequential family / random placer: the model terminates on every input
     (theorems) - violation.  Annealer: its schedule is finite for every finite starting temperature (each
@@ -1268,6 +1279,8 @@ def run(ctx):
             probs.append(gen_problem(rng, big=big))
     for i in range(0, len(probs), 100):
         eval_problems(ctx, probs[i:i + 100])
+        if hang_verdict_reached(ctx):
+            break
     # whole anneals (no bound on the number of temperatures) with strongly heterogeneous net weights
     hetero = [gen_hetero(rng, rng.choice([8, 10, 12]), rng.choice([16, 24])) for _ in range(2)] if ctx.quick else \
         [gen_hetero(rng, rng.choice([12, 16, 20, 24, 24]), rng.choice([30, 40, 60, 60])) for _ in range(12)]
